@@ -878,3 +878,43 @@ Section RunCompGraph.
     run_shexc2 fa (with_cap c z) thr (restrict_typing (r_tau c) (r_targets c) (Z.to_nat (r_cap c)) g) g.
   Proof. intros Hk Hz Hnd Hf. apply run_cap_is_restriction; [exact Hk | exact Hz | apply memberships_NoDup; assumption]. Qed.
 End RunCompGraph.
+
+(** [ids_faithful] holds of every graph a yielder produces: blank-node strings
+    start with "_:" and IRI strings do not *)
+Definition bnode_marked (n : node) : Prop :=
+  nk n = KBnode <-> prefixb (Str "_:") (nid n) = true.
+
+Lemma marked_ids_faithful g : (forall n, node_in g n -> bnode_marked n) -> ids_faithful g.
+Proof.
+  intros H n n' Hn Hn' E. apply H in Hn. apply H in Hn'. unfold bnode_marked in *.
+  destruct n as [k i], n' as [k' i']. cbn in *. subst i'. f_equal.
+  destruct k, k'; try reflexivity.
+  - destruct Hn' as [Hn' _]. specialize (Hn' eq_refl). apply Hn in Hn'. discriminate.
+  - destruct Hn as [Hn _]. specialize (Hn eq_refl). apply Hn' in Hn. discriminate.
+Qed.
+
+Section RunShapes.
+  Variable fa : FreqAlg.
+
+  Lemma run_shapes2_track c c' thr gi gi' gf :
+    c' = with_cap c (r_cap c') ->
+    track (r_tau c) (mode_of_cfg c) (r_cap c) gi = track (r_tau c') (mode_of_cfg c') (r_cap c') gi' ->
+    run_shapes2 fa c thr gi gf = run_shapes2 fa c' thr gi' gf.
+  Proof.
+    intros Hc Ht. unfold run_shapes2. unfold mode_of_cfg in Ht. rewrite Ht.
+    rewrite Hc. destruct c; reflexivity.
+  Qed.
+
+  (** the shapes (before serialisation) with the cap = the shapes of the uncapped
+      extraction with the restricted document as instance source *)
+  Lemma run_shapes_cap_is_restriction c thr g z : (0 < r_cap c)%Z -> (z <= 0)%Z ->
+    NoDup g -> ids_faithful g -> tau_ok (r_tau c) g ->
+    run_shapes fa c thr g =
+    run_shapes2 fa (with_cap c z) thr (restrict_typing (r_tau c) (r_targets c) (Z.to_nat (r_cap c)) g) g.
+  Proof.
+    intros Hk Hz Hnd Hf Hok. rewrite run_shapes_is_run_shapes2. apply run_shapes2_track; [reflexivity|].
+    cbn [with_cap r_cap r_tau]. replace (mode_of_cfg (with_cap c z)) with (mode_of_cfg c) by reflexivity.
+    rewrite <- (scope_of_mode_of_cfg c) in *. apply cap_is_restriction; try assumption.
+    apply memberships_NoDup; assumption.
+  Qed.
+End RunShapes.
